@@ -6,7 +6,8 @@ PROP = {
     "id": "C11",
     "coq_targets": ["Properties/C11.vo", "Extract/AroExtract.vo"],
     "properties_file": "Properties/C11.v",
-    "theorems": ["C11_ids_unique", "C11_withdraw_id", "C11_no_spurious_exhaustion"],
+    "theorems": ["C11_ids_unique", "C11_table_is_announced", "C11_withdraw_id", "C11_withdraw_is_of_requested_path",
+                 "C11_no_spurious_exhaustion"],
     "allowed_axioms": [],
     "harness": "c11",
     "modelrun": {"name": "c11", "extracted": ["aro_model"], "driver": aro_props.driver("c11")},
